@@ -94,6 +94,8 @@ pub async fn build(c: &Case, extra: &[Op]) -> (EigenTrustEngine, HashMap<NodeId,
     (e, m)
 }
 
+static EQUAL_HISTORY_REBUILDS: std::sync::atomic::AtomicUsize = std::sync::atomic::AtomicUsize::new(1);
+
 fn run_case(c: &Case) -> Verdict {
     let rt = paused_rt();
     rt.block_on(async {
@@ -163,15 +165,19 @@ fn run_case(c: &Case) -> Verdict {
             }
         }
         // 3. equal histories ⇒ equal scores
-        let (_e2, m2) = build(c, &[]).await;
-        if m1.len() != m2.len() {
-            v.fail(format!("{ID}/{site}/equal-histories-differ"), format!("{} vs {} entries", m1.len(), m2.len()));
-        } else {
+        // (each engine has its own hash-map order; the shipped code once let that order tip the convergence test,
+        //  so a replay repeats the rebuild many times; the tolerance only allows for last-digit rounding)
+        'again: for _ in 0..EQUAL_HISTORY_REBUILDS.load(std::sync::atomic::Ordering::Relaxed) {
+            let (_e2, m2) = build(c, &[]).await;
+            if m1.len() != m2.len() {
+                v.fail(format!("{ID}/{site}/equal-histories-differ"), format!("{} vs {} entries", m1.len(), m2.len()));
+                break;
+            }
             for (k, s) in &m1 {
                 let t = m2.get(k).copied().unwrap_or(f64::NAN);
-                if !((s - t).abs() <= 1e-6) {
+                if !((s - t).abs() <= 1e-12) {
                     v.fail(format!("{ID}/{site}/equal-histories-differ"), format!("{k:?}: {s} vs {t}"));
-                    break;
+                    break 'again;
                 }
             }
         }
@@ -202,7 +208,15 @@ fn run_case(c: &Case) -> Verdict {
         let (_, m_cor) = build(c, &[Op::Stats(p, Stat::Corrupted)]).await;
         let (_, m_vio) = build(c, &[Op::Stats(p, Stat::Violation)]).await;
         let b0 = base.unwrap_or(0.0);
-        let tol = 1e-12;
+        // A report about a node that already takes part in the iteration (it has an edge or statistics) changes only
+        // its multiplier: the two runs differ by rounding alone.  The first report about an anchor that has neither
+        // edges nor statistics makes it join the iterated set, so the two runs start from different vectors and stop
+        // (L1 change < 1e-4) at different residues; there the comparison allows for that stopping rule.
+        let takes_part = stat_nodes.contains(&p) || live_edges.iter().any(|(a, b)| *a == p || *b == p);
+        let tol = if takes_part { 1e-12 } else { 1e-3 };
+        if base.is_some() && !takes_part {
+            v.class("target_joins_iterated_set");
+        }
         let had_stats = c.ops.iter().any(|o| matches!(o, Op::Stats(a, _) if a % n == p));
         let tag = if had_stats { "" } else { "-first-report" };
         if base.is_some() {
@@ -274,7 +288,7 @@ pub fn run(run: &Run) {
     run.assume("monotonicity is asserted for statistics reports (CorrectResponse / FailedResponse / CorruptedData / ProtocolViolation), the mapping the network layer uses; pairwise local-trust statements are not claimed monotone");
     run.set_rule("history", "history of update_local_trust / update_node_stats (9 variants, amounts to 2^40) / add-remove anchor / remove_node / compute over n identities, then compute; 4 metamorphic variants with one extra report; non-trivial = ≥3 scored nodes, ≥1 edge and ≥1 statistics update; distinct by history hash");
     let sh = shards_for(run.tier);
-    run.prop("history", run.tier.pick(1200, 20_000), sh, case(20, 60), run_case);
+    run.prop("history", run.tier.pick(120000, 600000), sh, case(20, 60), run_case);
     if run.tier == Tier::Thorough {
         run.prop("history", 400, sh, case(600, 2000), run_case);
     } else {
@@ -284,7 +298,12 @@ pub fn run(run: &Run) {
 
 pub fn replay(run: &Run, sub: &str, case: &Value) -> Option<bool> {
     match sub {
-        "history" => Some(run.eval_case("replay/history", &from_value::<Case>(case)?, &run_case)),
+        "history" => {
+            EQUAL_HISTORY_REBUILDS.store(300, std::sync::atomic::Ordering::Relaxed);
+            let r = run.eval_case("replay/history", &from_value::<Case>(case)?, &run_case);
+            EQUAL_HISTORY_REBUILDS.store(1, std::sync::atomic::Ordering::Relaxed);
+            Some(r)
+        }
         _ => None,
     }
 }
